@@ -45,8 +45,9 @@ def gram_statements(seed, n, starts=('select', 'select', 'union', 'insert', 'upd
 
 
 class Workload:
-    def __init__(self, ctx, n_templates, n_mut, n_soup, n_noise=True, dialects=DIALECTS, max_nest=40, n_lexeme=0, n_gram=0, lexeme_extra=False):
+    def __init__(self, ctx, n_templates, n_mut, n_soup, n_noise=True, dialects=DIALECTS, max_nest=40, n_lexeme=0, n_gram=0, lexeme_extra=False, n_runs=0):
         self.lexeme_extra = lexeme_extra
+        self.n_runs = n_runs
         self.n_lexeme = n_lexeme
         self.n_gram = n_gram
         self.ctx = ctx
@@ -178,4 +179,27 @@ class Workload:
                         ml, t = sqlgen.mutate(t, toks, r, self.vocab(d))
                         label = 'gram+mut:' + ml
                     yield idx, label, d, t
+                idx += 1
+
+        # class 8: long runs of one repeated unit (what a pattern with nested repetition, or a loop that re-scans its input,
+        # is sensitive to), at the start, on a line of their own, inline, inside a literal / comment, and at the end
+        if self.n_runs:
+            units = ['-', '--', '-- ', '/*', '*/', '*', '/', "'", '"', '`', ';', ' ', '\n', '\t', '\r\n', '(', ')', '--x\n', '; ', '\\', '@', '#', 'a', '1', '.',
+                     'e', ',', '- ', "''", '""', '/**/', '=', '%', '1e', '0.', ' ;', '\\\'', 'é', '\u00a0', '_', '$', ':', '?', '!', '<', '>', '|', '&', '~', '^', '[', ']', '{', '}']
+            stmts = ['select 1', 'select a from t where b = 1', "select 'x' from t", 'show tables', 'create view v as (select 1)', 'insert into t (a) values (1)']
+            places = ['prefix', 'suffix', 'own-line', 'inline', 'in-string', 'in-dq', 'in-bq', 'in-comment', 'in-line-comment', 'tail-after-semicolon']
+            k = 0
+            for j in range(self.n_runs):
+                r = core.rng_for(ctx.seed, 'parsework', 'runs', j)
+                u = units[j % len(units)]
+                place = places[(j // len(units)) % len(places)]
+                n = r.choice([30, 36, 40, 64, 120, 300]) if place not in ('in-string', 'in-dq', 'in-bq', 'in-comment', 'in-line-comment') or j % 3 else r.choice([1000, 3000])
+                st, st2 = r.choice(stmts), r.choice(stmts)
+                run = u * n
+                t = {'prefix': run + ' ' + st, 'suffix': st + ' ' + run, 'own-line': st + '\n' + run + '\n' + st2, 'inline': st + ' ' + run + ' ' + st2[7:],
+                     'in-string': "select '" + run + "' from t", 'in-dq': 'select "' + run + '" from t', 'in-bq': 'select `' + run + '` from t',
+                     'in-comment': 'select /*' + run + '*/ 1', 'in-line-comment': 'select 1 --' + run + '\nfrom t', 'tail-after-semicolon': st + ';' + run}[place]
+                d = self.dialects[j % len(self.dialects)]
+                if ctx.mine(idx):
+                    yield idx, 'runs:' + place, d, t
                 idx += 1
